@@ -276,4 +276,173 @@ theorem C05_crash_counterexample_upstream :
 theorem C05_stale_counterexample_upstream :
     (fullSave Cfg.upstream (fullSave Cfg.upstream empty A false) B false) .constraints = some (.ok 1) := by decide
 
+/-! ### interruption by an exception: clean-up effects while the stack unwinds (`interruptSteps`, `GoodUnwind`) -/
+
+theorem safeUnwind_mono (unw : List Step) (h : safeUnwind true unw = true) : safeUnwind false unw = true := by
+  cases unw with
+  | nil => rfl
+  | cons s r => cases s with
+    | write f t => cases f <;> simp_all [safeUnwind]
+    | remove f => cases f <;> simp_all [safeUnwind]
+
+/-- clean-up effects that never create the sentinel leave it absent -/
+theorem unwind_no_sentinel (unw : List Step) (d : Dir) (hd : d .sentinel = none) (h : safeUnwind false unw = true) :
+    (unw.foldl Step.apply d) .sentinel = none := by
+  induction unw generalizing d with
+  | nil => exact hd
+  | cons s r ih =>
+    simp only [List.foldl_cons]
+    cases s with
+    | write f t =>
+      cases f <;> first
+        | (simp [safeUnwind] at h; done)
+        | (apply ih _ _ (by simpa [safeUnwind] using h); simpa [Step.apply] using hd)
+    | remove f =>
+      cases f <;> apply ih _ _ (by simpa [safeUnwind] using h) <;> simp [Step.apply, hd]
+
+/-- clean-up effects that leave the data files alone while the sentinel may exist preserve the invariant -/
+theorem unwind_inv (unw : List Step) (d : Dir) (h : DInv d) (hs : safeUnwind true unw = true) :
+    DInv (unw.foldl Step.apply d) := by
+  cases unw with
+  | nil => exact h
+  | cons s r =>
+    have hnone : ∀ d' : Dir, d' .sentinel = none → safeUnwind false r = true →
+        DInv (r.foldl Step.apply d') := by
+      intro d' hd' hr hsome
+      rw [unwind_no_sentinel r d' hd' hr] at hsome
+      simp at hsome
+    cases s with
+    | write f t => cases f <;> simp [safeUnwind] at hs
+    | remove f =>
+      cases f <;> first
+        | (simp [safeUnwind] at hs; done)
+        | (simp only [List.foldl_cons]
+           exact hnone _ (by simp [Step.apply]) (by simpa [safeUnwind] using hs))
+
+/-- strictly inside a save (after its first, before its last effect) the sentinel is absent, whatever was there -/
+theorem crash_inside_no_sentinel (d : Dir) (x : Obj) (mo : Bool) (m : List Step) (hg : GoodMid m x mo = true)
+    (k : Nat) (torn : Bool) (hk : 0 < k) (hk' : k < m.length + 2) :
+    (crashSteps (wrap m x.tag) d k torn) .sentinel = none := by
+  unfold crashSteps wrap
+  have htake : ((Step.remove File.sentinel :: (m ++ [Step.write File.sentinel x.tag])).take k)
+      = Step.remove File.sentinel :: m.take (k - 1) := by
+    obtain ⟨j, rfl⟩ : ∃ j, k = j + 1 := ⟨k - 1, by omega⟩
+    simp only [List.take_succ_cons, Nat.add_sub_cancel]
+    rw [List.take_append_of_le_length (by omega)]
+  have hsent : ((Step.remove File.sentinel :: m.take (k - 1)).foldl Step.apply d) .sentinel = none := by
+    simp only [List.foldl_cons]
+    rw [foldl_sentinel _ _ (fun s hs => good_no_sentinel m x mo hg s (List.mem_of_mem_take hs))]
+    simp [Step.apply]
+  rw [htake]
+  cases torn
+  · simpa using hsent
+  · simp only [if_true]
+    cases (Step.remove File.sentinel :: (m ++ [Step.write File.sentinel x.tag]))[k]? with
+    | some s => simp only; rw [tear_sentinel, hsent]
+    | none => simpa using hsent
+
+/-- **C05_crash_inv_unwind**: whatever the directory held, in whatever order a good plan rewrites the data files, a
+`save` that is interrupted after any number of effects — optionally inside the next file write — and then performs ANY
+clean-up effects accepted by `GoodUnwind` while the exception unwinds the stack (`finally`, `except`, context-manager
+exits; none for a process death) leaves either no sentinel or a complete, coherent cache. -/
+theorem C05_crash_inv_unwind (d : Dir) (x : Obj) (mo : Bool) (m : List Step) (hg : GoodMid m x mo = true)
+    (k : Nat) (torn : Bool) (unw : List Step) (hu : GoodUnwind (m.length + 2) k unw = true) (h : DInv d) :
+    DInv (interruptSteps (wrap m x.tag) d k torn unw) := by
+  unfold interruptSteps
+  have hc := C05_crash_inv_plan d x mo m hg k torn h
+  unfold GoodUnwind at hu
+  by_cases hb : k = 0 ∨ m.length + 2 ≤ k
+  · rw [decide_eq_true hb] at hu
+    exact unwind_inv unw _ hc hu
+  · rw [decide_eq_false hb] at hu
+    intro hsome
+    rw [unwind_no_sentinel unw _ (crash_inside_no_sentinel d x mo m hg k torn (by omega) (by omega)) hu] at hsome
+    simp at hsome
+
+/-- an interrupted automatic save of `read_directory` (nothing happens when the read is served from the cache) -/
+theorem C05_read_interrupt_inv (d : Dir) (src : Obj) (m : List Step) (hg : GoodMid m src false = true)
+    (k : Nat) (torn : Bool) (unw : List Step) (hu : GoodUnwind (m.length + 2) k unw = true) (h : DInv d) :
+    DInv (ustep d (.readInterrupt src m k torn unw)) := by
+  simp only [ustep]
+  split
+  · exact h
+  · exact C05_crash_inv_unwind d src false m hg k torn unw hu h
+
+/-- **C05_history_inv_unwind**: for every history of reads, saves, interrupted saves and reads whose automatic save is
+interrupted — each with any good plan, any interruption point, torn or not, and any good clean-up effects — starting
+from a directory without cache, the sentinel promises a complete coherent cache … -/
+theorem C05_history_inv_unwind (ops : List UOp) (hg : ∀ op ∈ ops, op.good = true) (d0 : Dir) (h0 : d0 .sentinel = none) :
+    DInv (ops.foldl ustep d0) := by
+  suffices ∀ d, DInv d → DInv (ops.foldl ustep d) from this _ (by intro h; simp [h0] at h)
+  induction ops with
+  | nil => intro d h; exact h
+  | cons op ops ih =>
+    intro d h
+    apply ih (fun o ho => hg o (List.mem_cons_of_mem _ ho))
+    have hop := hg op (by simp)
+    cases op with
+    | read src m => exact C05_read_inv_plan d src m hop h
+    | save x mo m =>
+      simp only [ustep]; rw [C05_full_save_plan m x mo hop]; exact fun _ => ⟨x, mo, rfl⟩
+    | interrupt x mo m k torn unw =>
+      simp only [UOp.good, Bool.and_eq_true] at hop
+      exact C05_crash_inv_unwind d x mo m hop.1 k torn unw hop.2 h
+    | readInterrupt src m k torn unw =>
+      simp only [UOp.good, Bool.and_eq_true] at hop
+      exact C05_read_interrupt_inv d src m hop.1 k torn unw hop.2 h
+
+/-- **C05_crash_safe_unwind**: … hence a read after any such history returns the parse of the source or one complete
+saved object. -/
+theorem C05_crash_safe_unwind (ops : List UOp) (hg : ∀ op ∈ ops, op.good = true) (d0 : Dir) (h0 : d0 .sentinel = none)
+    (src : Obj) (m : List Step) : Coherent (readDirG (ops.foldl ustep d0) src m).1 := by
+  have h := C05_history_inv_unwind ops hg d0 h0
+  unfold readDirG
+  split
+  · rename_i hs; exact h hs
+  · exact ⟨src, false, rfl⟩
+
+/-- the machine of the `*_plan` theorems is the special case "no clean-up effect" (`unw = []`, always good) -/
+theorem C05_unwind_extends_plan (d : Dir) (op : GOp) : ustep d op.toU = gstep d op ∧ op.toU.good = op.good := by
+  cases op <;> simp [GOp.toU, ustep, gstep, UOp.good, GOp.good, interruptSteps, GoodUnwind, safeUnwind]
+
+/-- **C05_interrupted_read_transparent**: a first read whose automatic save is interrupted strictly inside (any point,
+torn or not, any good clean-up) is not trusted: the next read parses the source again, and the read after that is served
+from the cache the second one wrote and still returns the parse of the source. -/
+theorem C05_interrupted_read_transparent (d0 : Dir) (h0 : d0 .sentinel = none) (src : Obj) (m m' m'' : List Step)
+    (hg : GoodMid m src false = true) (hg' : GoodMid m' src false = true)
+    (k : Nat) (torn : Bool) (unw : List Step) (hk : 0 < k) (hk' : k < m.length + 2)
+    (hu : GoodUnwind (m.length + 2) k unw = true) :
+    let d1 := ustep d0 (.readInterrupt src m k torn unw)
+    d1 .sentinel = none ∧ (readDirG d1 src m').1 = expected src false ∧
+      (readDirG (readDirG d1 src m').2 src m'').1 = expected src false := by
+  have hb : ¬ (k = 0 ∨ m.length + 2 ≤ k) := by omega
+  have h1 : (ustep d0 (.readInterrupt src m k torn unw)) .sentinel = none := by
+    simp only [ustep, h0, Option.isSome_none, Bool.false_eq_true, if_false, interruptSteps]
+    unfold GoodUnwind at hu
+    rw [decide_eq_false hb] at hu
+    exact unwind_no_sentinel unw _ (crash_inside_no_sentinel d0 src false m hg k torn hk hk') hu
+  refine ⟨h1, ?_, ?_⟩
+  · simp [readDirG, h1]
+  · simp [readDirG, h1, C05_full_save_plan m' src false hg', expected]
+
+/-- the seeded shape "one `try … finally: touch(sentinel)` around the writes": rejected by `GoodUnwind` … -/
+example : GoodUnwind 9 6 [.write .sentinel 2] = false := by decide
+/-- … a clean-up that removes the files written so far is accepted strictly inside the save … -/
+example : GoodUnwind 9 6 [.remove .nodes, .remove .elements] = true := by decide
+/-- … but not before the sentinel was removed (interruption before the first effect), unless it removes the sentinel first -/
+example : GoodUnwind 9 0 [.remove .nodes, .remove .elements] = false ∧
+    GoodUnwind 9 0 [.remove .sentinel, .remove .nodes, .remove .elements] = true := by decide
+/-- non-vacuity of `C05_crash_inv_unwind`: second save of `B` over the complete cache of `A`, interrupted inside the
+write of the nodal file, clean-up removes what was written: no sentinel, the half-written nodal file stays -/
+example : GoodMid (mid B false) B false = true ∧ GoodUnwind ((mid B false).length + 2) 7 [.remove .nodes, .remove .elements] = true ∧
+    (interruptSteps (wrap (mid B false) B.tag) (fullSave Cfg.fixed empty A false) 7 true [.remove .nodes, .remove .elements]) .sentinel = none ∧
+    (interruptSteps (wrap (mid B false) B.tag) (fullSave Cfg.fixed empty A false) 7 true [.remove .nodes, .remove .elements]) .nodal = some .torn := by
+  decide
+
+/-- the sentinel created while unwinding (`finally: touch`): a second save interrupted by an exception after rewriting the
+nodes leaves sentinel + new nodes + old elements — the reason for the hypothesis `GoodUnwind` -/
+theorem C05_unwind_counterexample_marker_in_finally :
+    let d := interruptSteps (wrap (mid B false) B.tag) (fullSave Cfg.fixed empty A false) 6 false [.write .sentinel B.tag]
+    (d .sentinel).isSome = true ∧ d .nodes = some (.ok 2) ∧ d .elements = some (.ok 1) := by decide
+
 end Femio.C05
